@@ -253,6 +253,27 @@ type saslStep struct {
 	res       bres
 }
 
+// tracker counts calls in flight. Unlike sync.WaitGroup it may be incremented from zero while somebody waits: a chunked
+// delivery's goroutine starts whenever the scheduler lets it (`latestart`), possibly after the probe has begun to wait.
+type tracker struct {
+	mu sync.Mutex
+	n  int
+}
+
+func (t *tracker) Add(d int) { t.mu.Lock(); t.n += d; t.mu.Unlock() }
+func (t *tracker) Done()     { t.Add(-1) }
+func (t *tracker) Wait() {
+	for {
+		t.mu.Lock()
+		z := t.n <= 0
+		t.mu.Unlock()
+		if z {
+			return
+		}
+		time.Sleep(200 * time.Microsecond)
+	}
+}
+
 type backend struct {
 	log                *evlog
 	mu                 sync.Mutex
@@ -260,7 +281,7 @@ type backend struct {
 	nsess              int
 	ndata              int
 	drecs              []string
-	wg                 sync.WaitGroup
+	wg                 tracker // Data calls in flight (not a sync.WaitGroup: a delivery may start while the probe already waits)
 	lmtpSess, authSess bool
 	mechs              []string
 	dataStarted        chan struct{}
